@@ -355,6 +355,16 @@ def run_check():
                         ck.fail("dpm", f"dpm={dpm_i} but mean direction of the peak row {bp} is {dir_from(os_, oc_)}", case)
         # dpspr
         ds_i = at("dpspr")
+        if bp is not None and not math.isnan(ds_i):
+            s_, c_ = gen.trig_tables(dirs)
+            m0r = float(E[bp].sum())
+            if m0r > 0:
+                xo = 1 - math.hypot(float((E[bp] * s_).sum()), float((E[bp] * c_).sum())) / m0r
+                xi_ = ds_i ** 2 / (2 * R2D ** 2)
+                if abs(xi_ - xo) > (5e-6 if ctx["dtype"] == "float64" else 1e-4):
+                    ck.fail("dpspr", f"dpspr={ds_i} but the spread of the peak row {bp} is {math.sqrt(max(xo, 0) * 2) * R2D}", case)
+        if bp is None and not math.isnan(ds_i):
+            ck.fail("dpspr", f"no interior peak but dpspr={ds_i}", case)
         if mo["dpsA"] is None:
             if not math.isnan(ds_i):
                 ck.disagree("dpspr", f"impl={ds_i} model=nan", case)
